@@ -717,7 +717,34 @@ class Emit:
                 o.append('  %s(%s)((%s)%s %s (%s)%s ? %s : %s);' % (asg, t.c(), ct, args[0], '<' if m.group(2) == 'min' else '>', ct, args[1], args[0], args[1])); return
             if n.startswith('llvm.bswap'):
                 o.append('  %s__builtin_bswap%d(%s);' % (asg, i.ty.bits, args[0])); return
-            if n.startswith('llvm.fabs'): o.append('  %s(%s < 0 ? -%s : %s);' % (asg, args[0], args[0], args[0])); return
+            if n.startswith('llvm.fabs'): o.append('  %s__builtin_fabs%s(%s);' % (asg, 'f' if i.ty.k == 'float' else '', args[0])); return
+            m = re.match(r'llvm\.fsh(l|r)\.i(\d+)', n)
+            if m:
+                bits = int(m.group(2)); t = i.ty; ct = t.c()
+                sh = '((%s) %% %d)' % (args[2], bits)
+                if m.group(1) == 'l':
+                    o.append('  %s(%s)((%s) ? (((%s)%s << %s) | ((%s)%s >> (%d - %s))) : %s);' % (asg, ct, sh, ct, args[0], sh, ct, args[1], bits, sh, args[0]))
+                else:
+                    o.append('  %s(%s)((%s) ? (((%s)%s << (%d - %s)) | ((%s)%s >> %s)) : %s);' % (asg, ct, sh, ct, args[0], bits, sh, ct, args[1], sh, args[1]))
+                return
+            m = re.match(r'llvm\.(ctlz|cttz|ctpop)\.i(\d+)', n)
+            if m:
+                bits = int(m.group(2)); ct = i.ty.c(); op = m.group(1)
+                suf = 'll' if bits == 64 else ''
+                if op == 'ctpop': o.append('  %s(%s)__builtin_popcount%s(%s);' % (asg, ct, suf, args[0]))
+                elif op == 'ctlz': o.append('  %s(%s)(%s ? __builtin_clz%s(%s) - %d : %d);' % (asg, ct, args[0], suf, args[0], (64 if bits == 64 else 32) - bits, bits))
+                else: o.append('  %s(%s)(%s ? __builtin_ctz%s(%s) : %d);' % (asg, ct, args[0], suf, args[0], bits))
+                return
+            m = re.match(r'llvm\.(u|s)(add|sub|mul)\.with\.overflow\.i(\d+)', n)
+            if m:
+                t = i.ty; et = t.els[0]; ct = et.c() if m.group(1) == 'u' else et.sc()
+                o.append('  { %s r__; %s.f1 = __builtin_%s_overflow((%s)%s, (%s)%s, &r__); %s.f0 = (%s)r__; }' % (ct, R, m.group(2), ct, args[0], ct, args[1], R, et.c())); return
+            m = re.match(r'llvm\.u(add|sub)\.sat\.i(\d+)', n)
+            if m:
+                ct = i.ty.c()
+                if m.group(1) == 'sub': o.append('  %s(%s)((%s)%s > (%s)%s ? (%s)%s - (%s)%s : 0);' % (asg, ct, ct, args[0], ct, args[1], ct, args[0], ct, args[1]))
+                else: o.append('  %s(%s)((%s)((%s)%s + (%s)%s) < (%s)%s ? (%s)-1 : (%s)((%s)%s + (%s)%s));' % (asg, ct, ct, ct, args[0], ct, args[1], ct, args[0], ct, ct, ct, args[0], ct, args[1]))
+                return
             if n.startswith('llvm.'): raise TypeError('intrinsic ' + n)
             if i.callee.val in s.m.funcs or i.callee.val in s.m.decls:
                 o.append('  %s%s(%s);' % (asg, gname(i.callee.val), ', '.join(args))); return
